@@ -20,6 +20,7 @@ RULE = (
     "forward and reversed, with/without a scalar field, fractional steps {0, 1/2, 1}; non-trivial = at least one hand-over (a frame strictly inside "
     "the run) AND at least one interpolated step; lattice points distinct by construction"
 )
+RULE += " Beyond the lattice (chosen scenarios, not enumerated): intervals of 75-150 steps between frames, also with single-precision files."
 ASSUMPTIONS = ["frames on the model time grid", "time units 'seconds since 1970-01-01' (one slice uses hours/days)", "a global sign of the reversed velocity is factored out (C10 decides it)"]
 
 S0 = world.tosec("2021-06-01T00:00:00")
